@@ -143,6 +143,11 @@ loop:
 				a.last = c
 				break loop
 			}
+			// The name ends up in a path below the target directory, it has to be
+			// a single, normal path component
+			if d.Name == "" || d.Name == "." || d.Name == ".." || strings.ContainsAny(d.Name, "/\x00") {
+				return nil, InvalidFormat{"invalid filename"}
+			}
 			name = d.Name
 		case FormatGoodbye: // This will effectively be a "cd .."
 			if entry != nil {
@@ -151,6 +156,9 @@ loop:
 			}
 			a.dir = filepath.Dir(a.dir)
 		case nil:
+			if entry != nil { // the stream ends in the middle of a node
+				return nil, io.ErrUnexpectedEOF
+			}
 			return nil, nil
 
 		default:
